@@ -121,6 +121,7 @@ struct SpyState {
     hits: u64,
     misses: u64,
     puts: u64,
+    min_put: Option<usize>,
     obj_hits: u64,
     obj_misses: u64,
 }
@@ -142,6 +143,7 @@ impl DecodeEntry for Spy {
             let mut st = lock(&self.st);
             st.puts += 1;
             st.puts_now += 1;
+            st.min_put = Some(st.min_put.map_or(data.len(), |m| m.min(data.len())));
             st.model.insert((pack_id, offset), (fw::hash_of(&data), kind));
         }
         self.inner.put(pack_id, offset, data, kind, compressed_size);
@@ -1002,6 +1004,12 @@ fn run_bundle(ctx: &mut Ctx, r: &mut Rng, sc: &Scenario, cfg: PackCacheCfg, n_re
     ctx.count_n("delta_cache_hits", s.hits);
     ctx.count_n("delta_cache_misses", s.misses);
     ctx.count_n("delta_cache_puts", s.puts);
+    if let Some(m) = s.min_put {
+        let prev = ctx.extra.get("smallest_entry_put_into_delta_cache_bytes").and_then(|v| v.as_u64()).unwrap_or(u64::MAX);
+        if (m as u64) < prev {
+            ctx.note("smallest_entry_put_into_delta_cache_bytes", json!(m));
+        }
+    }
 }
 
 fn run_odb(ctx: &mut Ctx, r: &mut Rng, sc: &Scenario, cfg: PackCacheCfg, ocfg: ObjCacheCfg, n_req: usize) {
@@ -1090,6 +1098,12 @@ fn run_odb(ctx: &mut Ctx, r: &mut Rng, sc: &Scenario, cfg: PackCacheCfg, ocfg: O
     ctx.count_n("delta_cache_hits", s.hits);
     ctx.count_n("delta_cache_misses", s.misses);
     ctx.count_n("delta_cache_puts", s.puts);
+    if let Some(m) = s.min_put {
+        let prev = ctx.extra.get("smallest_entry_put_into_delta_cache_bytes").and_then(|v| v.as_u64()).unwrap_or(u64::MAX);
+        if (m as u64) < prev {
+            ctx.note("smallest_entry_put_into_delta_cache_bytes", json!(m));
+        }
+    }
     ctx.count_n("object_cache_hits", s.obj_hits);
     ctx.count_n("object_cache_misses", s.obj_misses);
 }
